@@ -1,5 +1,6 @@
 /- C05: invariants of the PUB model over all event sequences -/
 import NngModel.Model.Pub
+import NngModel.Generated.C05
 namespace Nng.Pub
 open Nng Nng.Proto
 
